@@ -20,7 +20,8 @@ LEVEL_TEXT = ("Action sequences of up to 30 steps are generated for both API typ
               "Sequences are sampled and shrunk as a whole; replay files re-run the step list without Hypothesis.")
 RULE = ("case = API type + step list over {connect, op_ok, op_raises(login EOF | rejected argument), disconnect, refused_connect, "
         "context_ok, context_body_raises}; non-trivial = contains a reconnect after a failure, a body exception or a refused "
-        "connect; distinct by the step list.")
+        "connect; distinct by the step list."
+        ' Body exceptions are drawn from 8 classes including OSError subclasses and CancelledError; a refused connection is also provoked through the async context (refused_context).')
 ASSUMPTIONS = [
     "connect while already connected is not generated (undocumented); TCP resets are outside the fault alphabet",
     "the device observes end-of-stream when its reader returns b'' for that connection; waited for with loop turns plus a bounded real-time wait for kernel FIN delivery",
